@@ -430,7 +430,7 @@ func (s *Session) onRecord(resp *Response, req *Request) {
 
 func (s *Session) onPlay(resp *Response, req *Request) (err error) {
 	if s.status == statusPlaying {
-		return
+		return s.response(resp) // 已在播放状态的重复 PLAY 也必须回复
 	}
 
 	// 传输模式、会话模式判断
